@@ -185,6 +185,13 @@ class Region(object):
                     b0, o0 = env[("ptr", b.name)]
                     return b0, o0 + off
                 return b, off
+            if b.k in ("bin", "un", "idx"):
+                # (A + e1) - e2, (&A[e1]) + e2, ... : resolve the inner pointer expression first
+                t = self.pointer_target(b, env)
+                off = self.form(r.a[1], env)
+                if t is None or off is None:
+                    return None
+                return t[0], (t[1] - off) if r.op == "-" else (t[1] + off)
             return None
         if r.k == "idx" and r.ty and ("*" in r.ty or "[" in r.ty):
             # a row of a multi-dimensional array:  g = gv[k]  points at the first cell of row k
@@ -348,8 +355,8 @@ class Region(object):
                 if x.k == "if" and x.els is None and _escapes(x.then) and not cfront.is_zero_lit(x.cond):
                     # 'if (c) continue;' : the rest of the block runs only when c is false
                     ctx = dict(ctx, guards=ctx["guards"] + conj(x.cond, False))
-                if x.k == "while" and not _has_own_break(x.body):
-                    # normal exit of 'while (c)' : c is false
+                if (x.k == "while" or (x.k == "for" and loop_header(x) is None)) and x.cond is not None and not _has_own_break(x.body):
+                    # normal exit of 'while (c)' / 'for (..; c; ..)' : c is false
                     ctx = dict(ctx, guards=ctx["guards"] + conj(x.cond, False))
         elif k == "decl":
             self.local_decls.add(s.var.decl)
